@@ -224,6 +224,22 @@ def run(ctx: Ctx):
     _o9_o10(ctx, rel)
     _o8(ctx, rel)
     _o11(ctx, rel)
+    # O12: the clean-up visits EVERY path it is given: a path that does not exist (the never-written epoch 0, a file removed by hand)
+    # is skipped, it does not end the loop - otherwise the superseded checkpoints that come after it in the set stay on disk for good
+    cu = ctx.pkg.func(f"{MOD}::{CLS}._clean_up_files")
+    exits = []
+    n_loops = 0
+    for lp in own_nodes(cu.node):
+        if isinstance(lp, (ast.For, ast.While)):
+            n_loops += 1
+            for x in ast.walk(lp):
+                if isinstance(x, (ast.Break, ast.Return)) or (isinstance(x, ast.Raise) and not any(isinstance(h, ast.ExceptHandler) and any(y is x for y in ast.walk(h)) for h in ast.walk(lp))):
+                    exits.append(x)
+    ctx.col.floor("clean_up_loops", n_loops, 1)
+    ctx.col.ob("G10", "O12", f"{rel}::{CLS}._clean_up_files::every-path-is-visited", not exits,
+               (f"the clean-up loop is left by `{type(exits[0]).__name__.lower()}` at line {exits[0].lineno}: the first path that is skipped (or fails) ends "
+                f"the whole clean-up, and the checkpoints after it in the set are never deleted - the state directory then holds more than the "
+                f"last and best epochs' files") if exits else "", rel, exits[0].lineno if exits else cu.line)
     plumbing(ctx, "S0", g3=False, g4=False)
     return dict(
         explanation=(
